@@ -813,3 +813,84 @@ def function_replay(name):
         return None
 
     return replay
+
+
+# ---- pointer text codec (JSONPointer._encode / _parse / __truediv__ against specs.rfc6901)
+
+def _codec_tokens():
+    alpha = ["~", "/", "0", "1", "a", "~0", "~1", "~01", "~10", "a/b", "a~b", "", "01", "-1", "12", "~~", "//", " ", "é", "\\"]
+    return alpha
+
+
+def codec_candidates():
+    import itertools
+
+    toks = _codec_tokens()
+    texts = set()
+    for n in (0, 1, 2, 3):
+        for combo in itertools.product(["~", "/", "0", "1", "a"], repeat=n):
+            texts.add("".join(combo))
+            texts.add("/" + "".join(combo))
+    texts |= {"/" + "/".join(c) for c in itertools.product(toks, repeat=2)}
+    texts |= {" /a", "a", "/~", "/~2", "/a/~01/b", "/12/012/-3", "/9007199254740993"}
+    for t in sorted(texts):
+        yield {"s": t, "other": t.lstrip("/"), "parts": [t], "self_parts": ["x"], "as_tuple": True}
+    for a in toks + [0, 1, 12, -3]:
+        for b in toks + [7]:
+            yield {"parts": [a, b], "as_tuple": True, "s": "", "other": str(a), "self_parts": [b]}
+            yield {"parts": [a, b], "as_tuple": False, "s": "", "other": str(a), "self_parts": [b]}
+    yield {"parts": [], "as_tuple": True, "s": "", "other": "", "self_parts": []}
+    yield {"parts": [], "as_tuple": False, "s": "", "other": "", "self_parts": []}
+
+
+def encode_replay():
+    def replay(inputs):
+        import specs.rfc6901 as pspec
+
+        ptr = importlib.import_module("jsonpath.pointer")
+        parts = [real(x) for x in inputs["parts"]]
+        parts = tuple(parts) if inputs.get("as_tuple", True) else list(parts)
+        if not all(isinstance(p, (int, str)) and not isinstance(p, bool) for p in parts):
+            return None
+        got = _outcome(ptr.JSONPointer._encode, parts)
+        want = _outcome(pspec.pointer_text, parts)
+        if got != want:
+            return f"JSONPointer._encode({parts!r}) {got[0]} {got[1]!r} but RFC 6901 section 3 spelling {want[0]} {want[1]!r}"
+        return None
+
+    return replay
+
+
+def parse_replay():
+    def replay(inputs):
+        import specs.rfc6901 as pspec
+
+        ptr = importlib.import_module("jsonpath.pointer")
+        p = ptr.JSONPointer("")
+        s = inputs["s"]
+        got = _outcome(lambda: p._parse(s, unicode_escape=False, uri_decode=False))
+        want = _outcome(pspec.parse_text, s, p.min_int_index, p.max_int_index)
+        if got != want or (got[0] == "returns" and [type(x) for x in got[1]] != [type(x) for x in want[1]]):
+            return f"JSONPointer._parse({s!r}, no decoding) {got[0]} {got[1]!r} but RFC 6901 tokens {want[0]} {want[1]!r}"
+        return None
+
+    return replay
+
+
+def truediv_replay():
+    def replay(inputs):
+        import specs.rfc6901 as pspec
+
+        ptr = importlib.import_module("jsonpath.pointer")
+        parts = tuple(real(x) for x in inputs["self_parts"])
+        other = inputs["other"]
+        if "\\" in other or other.lstrip().startswith("/") or not all(isinstance(p, (int, str)) and not isinstance(p, bool) for p in parts):
+            return None
+        base = ptr.JSONPointer.from_parts(parts, unicode_escape=False) if parts else ptr.JSONPointer("")
+        got = _outcome(lambda: (base / other).parts)
+        want = _outcome(pspec.truediv_parts, base.parts, other, base.min_int_index, base.max_int_index)
+        if got != want or (got[0] == "returns" and [type(x) for x in got[1]] != [type(x) for x in want[1]]):
+            return f"(JSONPointer({str(base)!r}) / {other!r}).parts {got[0]} {got[1]!r} but the tokens of the text appended to the base's are {want[0]} {want[1]!r}"
+        return None
+
+    return replay
